@@ -728,6 +728,12 @@ theorem C14_rtt_changes_only_by_sys (s : Sys F) (e : Ev) (j : Nat) (l l' : FLink
   | crit d => rw [hrun.eq_of_none (fun _ h => h)]; exact .inl (.refl _)
   | failNext cid => rw [hrun.eq_of_none (fun _ h => h)]; exact .inl (.refl _)
   | failBind cid => rw [hrun.eq_of_none (fun _ h => h)]; exact .inl (.refl _)
+  | stamp idx weak ld ccb cct =>
+    -- the only operation of a verdict stamp is the neutral `stamp`
+    have hn : ∀ op, op ≠ Op.stamp → ¬ evOps s (.stamp idx weak ld ccb cct) j op := fun op hop hA => hop hA.1
+    rcases rtt_run hrun (hn _ (by decide)) (hn _ (by decide)) with h | ⟨hr, -⟩
+    · exact .inl h
+    · exact absurd hr (hn _ (by decide))
 
 /-- **Along any run** (`C14_sample_only_from_echo_sys`): for every run `pre ++ [e]` of the shell from ANY
 state, the last event changes the FILTER state of link `j`'s RTT tracker only
